@@ -169,8 +169,8 @@ class Verifier:
             return SEntropy(0, forbidden=True)
         if t == "bytelist":
             return SByteList(z3.Const(nm, sym.B))
-        if t.startswith("tuple:"):
-            parts = t[6:].split(",")
+        if t.startswith("tuple:") or t.startswith("seq:"):
+            parts = t.split(":", 1)[1].split(",")
             return tuple(self.mkval(ip, p, "%s.%d" % (label, i)) for i, p in enumerate(parts))
         if t.startswith("list:"):
             parts = t[5:].split(",")
@@ -294,6 +294,8 @@ class Verifier:
         pushed = False
         try:
             for cl in c.pre:
+                if cl.name.startswith("definition"):
+                    continue     # definitional unfolding of a spec function: only used inside the callee's own proof
                 g = ip.truth(ip.eval(cl.expr_ast, fr, True))
                 self.oblige(ip, "%s/pre:%s" % (site, cl.name), "callpre", cl, g)
                 ctx.assume(g)
@@ -328,7 +330,7 @@ class Verifier:
             res = self.mkresult(ip, c, fr, env, site)
             fr.env["result"] = res
             for cl in c.post:
-                if getattr(cl, "on", "return") == "raise":
+                if getattr(cl, "on", "return") == "raise" or not getattr(cl, "export", True):
                     continue
                 if cl.when_ast is not None:
                     ip.use_old = True
@@ -383,6 +385,9 @@ class Verifier:
         if t.startswith("tuple:"):
             parts = t[6:].split(",")
             return isinstance(v, tuple) and len(v) == len(parts) and all(self.type_ok(ip, x, p) for x, p in zip(v, parts))
+        if t.startswith("seq:"):
+            parts = t[4:].split(",")
+            return isinstance(v, (tuple, list)) and len(v) == len(parts) and all(self.type_ok(ip, x, p) for x, p in zip(v, parts))
         if t.startswith("list:"):
             parts = t[5:].split(",")
             return isinstance(v, list) and len(v) == len(parts) and all(self.type_ok(ip, x, p) for x, p in zip(v, parts))
@@ -588,7 +593,7 @@ class Verifier:
     def use_lemma(self, ip, fr, lem, args):
         from . import theory
         vals = [ip.eval(ast.parse(a, mode="eval").body, fr, True) for a in args]
-        inst = theory.instantiate(lem, [I(v) if isintlike(v) else v for v in vals])
+        inst = theory.instantiate(lem, [I(v) if isintlike(v) else (v.t if hasattr(v, "t") else v) for v in vals])
         sym.FACTS.add(inst, "T1:" + lem if theory.LEMMAS[lem].proved else "T2:" + lem)
 
     def loop_cut(self, ip, st, frame, spec, kind, start=None):
@@ -684,6 +689,12 @@ class Verifier:
             rep.errors.append("function %s not found in the repository source" % qual)
             return rep
         self.cur_qual, self.cur_contract = qual, c
+        if c.lean_theorem:
+            from . import leanback
+            leanback.report_for(self, rep, c, finfo)
+            rep.time = time.time() - t0
+            self.reports[qual] = rep
+            return rep
         for ci, case in enumerate(c.case_list):
             pending = [[]]
             npaths = 0
